@@ -18,12 +18,12 @@ import (
 
 type C01Scenario struct {
 	ScenarioBase
-	Transport string            `json:"transport"` // serverless | ssh
-	Plain     bool              `json:"plain"`
-	Cfg       ServerCfg         `json:"cfg"`
-	Compress  string            `json:"compress"` // "" | gz | gzip | zst
-	Content   []byte            `json:"content"`
-	Desc      string            `json:"desc"`
+	Transport string              `json:"transport"` // serverless | ssh
+	Plain     bool                `json:"plain"`
+	Cfg       ServerCfg           `json:"cfg"`
+	Compress  string              `json:"compress"` // "" | gz | gzip | zst
+	Content   []byte              `json:"content"`
+	Desc      string              `json:"desc"`
 	Net       verifsimnet.Profile `json:"net"`
 	// Stalls: the consumer of the client's stdout pauses (back-pressure reaches the
 	// reader once the queues are full; pauses above 3 s let the periodic
@@ -605,7 +605,7 @@ func init() {
 			"non-trivial = non-empty content; distinct = distinct (scenario shape, schedule hash) pairs",
 		Real: []string{"internal/clients (cat client, handlers, connectors)", "internal/server (SSH world)", "internal/server/handlers", "internal/io/fs",
 			"internal/io/dlog + stdout logger", "golang.org/x/crypto/ssh client+server over simnet", "compress/gzip, DataDog/zstd"},
-		Stub:   []string{"cmd/dcat main (flag parsing, os.Exit) replaced by a replica", "TCP replaced by simnet", "io/signal.InterruptCh replaced by an idle channel"},
+		Stub: []string{"cmd/dcat main (flag parsing, os.Exit) replaced by a replica", "TCP replaced by simnet", "io/signal.InterruptCh replaced by an idle channel"},
 		Assumptions: []string{"instrumented copy of /repo (yield points, select rewrite) behaves like the original between yields",
 			"go1.26.8 + testing/synctest fake clock; GOMAXPROCS=1"},
 		New:    func() Scenario { return &C01Scenario{} },
@@ -615,8 +615,8 @@ func init() {
 		Shape:  c01Shape,
 		Sample: c01Sample,
 		Triggers: map[string]func(Scenario) (Scenario, bool){
-			"content-has-0xAC":            c01TrigDelimiter,
-			"plain-line-starts-with-dot":  c01TrigLeadingDot,
+			"content-has-0xAC":           c01TrigDelimiter,
+			"plain-line-starts-with-dot": c01TrigLeadingDot,
 			// line-longer-than-mll is discounted in the oracle (see c01Run), so that
 			// the MaxLineLength split itself stays checked
 			"line-longer-than-mll": func(s Scenario) (Scenario, bool) { return s, false },
